@@ -94,12 +94,22 @@ func setClientSubnet(req *bfe_basic.Request, dnsMsg *dns.Msg) {
 		Address:       cip,
 	}
 
-	opt := new(dns.OPT)
-	opt.Hdr.Name = "."
-	opt.Hdr.Rrtype = dns.TypeOPT
-	opt.SetUDPSize(dns.DefaultMsgSize)
-	opt.Option = append(opt.Option, subnet)
-	dnsMsg.Extra = append(dnsMsg.Extra, opt)
+	// a message carries at most one OPT record (RFC 6891): reuse the client's
+	opt := dnsMsg.IsEdns0()
+	if opt == nil {
+		opt = new(dns.OPT)
+		opt.Hdr.Name = "."
+		opt.Hdr.Rrtype = dns.TypeOPT
+		opt.SetUDPSize(dns.DefaultMsgSize)
+		dnsMsg.Extra = append(dnsMsg.Extra, opt)
+	}
+	options := make([]dns.EDNS0, 0, len(opt.Option)+1)
+	for _, o := range opt.Option {
+		if o.Option() != dns.EDNS0SUBNET { // replace a subnet option sent by the client
+			options = append(options, o)
+		}
+	}
+	opt.Option = append(options, subnet)
 }
 
 func RequestToDnsMsg(req *bfe_basic.Request) (*dns.Msg, error) {
